@@ -276,18 +276,24 @@ def replay_group(args):
                              f"save_data raised {raised} on a well-formed call: {fmt_hist(hist[-1:])}", {"hist": hist}))
         # reads (only meaningful when the disk is in an allowed state): compare with the matching model state
         rec = allowed[models.index(real)]
-        for rd in rec["reads"]:
+        for nq, rd in enumerate(sorted(rec["reads"], key=lambda r: json.dumps(r["q"], sort_keys=True))):
             qy = rd["q"]
             it_arg, vars_arg = list(qy["it"]), list(qy["vars"])
+            # iteration numbers are numbers: the same request as Python ints, as floats (t / dt), as a numpy integer array
+            kind = ("int", "float", "numpy")[(nq + len(hist)) % 3]
+            if kind == "float":
+                it_arg = [float(i) for i in it_arg]
+            elif kind == "numpy":
+                it_arg = np.array(it_arg, dtype=np.int64)
             snap = (list(it_arg), list(vars_arg))
             try:
                 res = R.read_data(param, it=it_arg, vars=vars_arg, rl=qy["rl"])
             except Exception as ex:
                 findings.append(("RoundTrip", {"clause": "ReadReturns", "exc": type(ex).__name__},
-                                 f"read_data(it={qy['it']}, vars={qy['vars']}, rl={qy['rl']}) raised {type(ex).__name__}: {ex}",
+                                 f"read_data(it={qy['it']} given as {kind}, vars={qy['vars']}, rl={qy['rl']}) raised {type(ex).__name__}: {ex}",
                                  {"hist": hist, "query": qy}))
                 continue
-            if (it_arg, vars_arg) != snap:
+            if (list(it_arg), vars_arg) != snap:
                 findings.append(("ArgsUntouched", {"clause": "ArgsUntouched", "call": "read_data"},
                                  f"read_data modified its arguments: it {snap[0]} -> {it_arg}, vars {snap[1]} -> {vars_arg}",
                                  {"hist": hist, "query": qy}))
